@@ -92,6 +92,17 @@ class Unmodelled(Exception):
     pass
 
 
+_reported: Dict[str, int] = {}
+
+
+def report(rep: vlib.Reporter, kind: str, key: str, what: str, replay_obj: Any, cap: int = 5) -> None:
+    """rep.finding, at most `cap` times per kind of failure (the total is kept under coverage['failures_by_kind'])"""
+    _reported[kind] = _reported.get(kind, 0) + 1
+    rep.coverage.setdefault("failures_by_kind", {})[kind] = _reported[kind]
+    if _reported[kind] <= cap:
+        rep.finding(key, what, replay_obj)
+
+
 def key_term(k: Any) -> str:
     if k is None:
         return "KNone"
@@ -439,8 +450,8 @@ def check_ops(rep: vlib.Reporter, rng: random.Random, n: int) -> bool:
             dist["ops"][op["op"]] = dist["ops"].get(op["op"], 0) + 1
             dist["errors"][e] += 1
         if not obs["disjoint_ok"]:
-            rep.finding("disjoint:" + json.dumps(case)[:300], "a key is present in both group and context of a real Options object "
-                        "after the call sequence", {"kind": "ops", "case": case})
+            report(rep, "disjoint", "disjoint:" + json.dumps(case)[:300], "a key is present in both group and context of a real Options object "
+                   "after the call sequence", {"kind": "ops", "case": case})
             found = True
         if obs["init_err"] == 0 and len(case["ops"]) >= 2 and any(obs["errs"]) and not all(obs["errs"]):
             rep.nontrivial(("ops", case))
@@ -517,8 +528,8 @@ def check_values(rep: vlib.Reporter, rng: random.Random, n: int) -> bool:
             if ha and hb:
                 stats["hash_checked"] += 1
                 if hva != hvb:
-                    rep.finding("valhash:" + json.dumps([a, b])[:300], "two equal option values hash differently after _make_hashable",
-                                {"kind": "val", "a": a, "b": b})
+                    report(rep, "valhash", "valhash:" + json.dumps([a, b])[:300], "two equal option values hash differently after _make_hashable",
+                           {"kind": "val", "a": a, "b": b})
                     found = True
             # the same on Options objects, when both are dictionaries
             if isinstance(pa_, dict) and isinstance(pb, dict):
@@ -527,8 +538,8 @@ def check_values(rep: vlib.Reporter, rng: random.Random, n: int) -> bool:
                 try:
                     h1, h2 = hash(oa), hash(ob)
                     if not (oa == ob) or h1 != h2:
-                        rep.finding("opthash:" + json.dumps([a, b])[:300], "Options with equal group dictionaries are unequal or hash differently",
-                                    {"kind": "val", "a": a, "b": b})
+                        report(rep, "opthash", "opthash:" + json.dumps([a, b])[:300], "Options with equal group dictionaries are unequal or hash differently",
+                               {"kind": "val", "a": a, "b": b})
                         found = True
                 except TypeError:
                     pass
@@ -685,12 +696,12 @@ def check_coherence(rep: vlib.Reporter, what: str, desc: Any, e: Optional[bool],
                     odd: Optional[str]) -> bool:
     """the property itself on the implementation: equal objects hash equal"""
     if odd:
-        rep.finding(f"{what}-odd:" + json.dumps(desc)[:300], f"unexpected exception comparing / hashing {what} objects: {odd}",
-                    {"kind": what, "pair": desc})
+        report(rep, what + "-odd", f"{what}-odd:" + json.dumps(desc)[:300], f"unexpected exception comparing / hashing {what} objects: {odd}",
+               {"kind": what, "pair": desc})
         return True
     if e and h1 is not None and h2 is not None and h1 != h2:
-        rep.finding(f"{what}-hash:" + json.dumps(desc)[:300], f"two equal {what} objects have different hashes",
-                    {"kind": what, "pair": desc})
+        report(rep, what + "-hash", f"{what}-hash:" + json.dumps(desc)[:300], f"two equal {what} objects have different hashes",
+               {"kind": what, "pair": desc})
         return True
     return False
 
@@ -1019,8 +1030,8 @@ def check_grouping(rep: vlib.Reporter, rng: random.Random, n: int) -> bool:
         res0 = ExecutionPlan.group_features_by_compute_framework_and_options(None, set(feats0))  # type: ignore[arg-type]
         by0 = {id(f): d["id"] for f, d in zip(feats0, ds)}
         if sorted(sorted(by0[id(f)] for f in g) for g in res0.values()) != sorted(groups):
-            rep.finding("ctx-split:" + json.dumps(ds)[:300], "removing all context options changes which features are grouped together",
-                        {"kind": "grouping", "feats": ds})
+            report(rep, "ctx-split", "ctx-split:" + json.dumps(ds)[:300], "removing all context options changes which features are grouped together",
+                   {"kind": "grouping", "feats": ds})
             found = True
         else:
             st["context_stripped_same"] += 1
@@ -1038,8 +1049,8 @@ def check_grouping(rep: vlib.Reporter, rng: random.Random, n: int) -> bool:
                 elif amb:
                     kf_hit = kf_hit or {"kind": "grouping", "feats": ds, "pair": [x, y], "groups": groups}
                 else:
-                    rep.finding("agree:" + json.dumps(ds)[:300], f"features {x},{y}: grouped together = {gi[x] == gi[y]} but agreement of "
-                                f"(group options, framework, type) = {py_agree(feats[x], feats[y])}", {"kind": "grouping", "feats": ds})
+                    report(rep, "agree", "agree:" + json.dumps(ds)[:300], f"features {x},{y}: grouped together = {gi[x] == gi[y]} but agreement of "
+                           f"(group options, framework, type) = {py_agree(feats[x], feats[y])}", {"kind": "grouping", "feats": ds})
                     found = True
         st["features"][len(ds)] = st["features"].get(len(ds), 0) + 1
         st["groups"][len(groups)] = st["groups"].get(len(groups), 0) + 1
@@ -1178,7 +1189,7 @@ def check_e2e(rep: vlib.Reporter, rng: random.Random, n: int) -> bool:
                 # own equal-options validation
                 kf_conf = kf_conf or {"kind": "e2e", "feats": ds, "exception": exc[:120]}
                 continue
-            rep.finding("e2e-exc:" + json.dumps(ds)[:300], "run_all raised on a request over one root group: " + exc, {"kind": "e2e", "feats": ds})
+            report(rep, "e2e-exc", "e2e-exc:" + json.dumps(ds)[:300], "run_all raised on a request over one root group: " + exc, {"kind": "e2e", "feats": ds})
             found = True
             continue
         byname = {d["name"]: d["id"] for d in ds}
@@ -1190,8 +1201,8 @@ def check_e2e(rep: vlib.Reporter, rng: random.Random, n: int) -> bool:
             if len(groups) == 1:
                 st["context_only_single_call"] += 1
             else:
-                rep.finding("e2e-ctx:" + json.dumps(ds)[:300], f"features that differ only in context options were computed in {len(groups)} calls",
-                            {"kind": "e2e", "feats": ds})
+                report(rep, "e2e-ctx", "e2e-ctx:" + json.dumps(ds)[:300], f"features that differ only in context options were computed in {len(groups)} calls",
+                       {"kind": "e2e", "feats": ds})
                 found = True
         if len(groups) > 1:
             rep.nontrivial(("e2e", ds))
@@ -1217,7 +1228,7 @@ def check_e2e(rep: vlib.Reporter, rng: random.Random, n: int) -> bool:
             if "[Features have different options]" in exc and py_conflation(feats):
                 kf_conf = kf_conf or {"kind": "e2e_derived", "inis": inis, "exception": exc[:120]}
                 continue
-            rep.finding("e2e-derived-exc:" + json.dumps(inis)[:300], "run_all raised on derived features: " + exc, {"kind": "e2e_derived", "inis": inis})
+            report(rep, "e2e-derived-exc", "e2e-derived-exc:" + json.dumps(inis)[:300], "run_all raised on derived features: " + exc, {"kind": "e2e_derived", "inis": inis})
             found = True
             continue
         rcalls = [c[1] for c in calls if c[0] == "R"]
@@ -1260,6 +1271,7 @@ def check_e2e(rep: vlib.Reporter, rng: random.Random, n: int) -> bool:
 def run(rep: vlib.Reporter, tier: str, seed: int) -> None:
     rng = random.Random(seed * 7919 + 15)
     big = tier == "thorough"
+    _reported.clear()
     pr = vlib.build_props(P)
     rep.proof(pr)
     found = False
@@ -1291,11 +1303,58 @@ def run(rep: vlib.Reporter, tier: str, seed: int) -> None:
 
 
 def replay(path: str) -> int:
+    """re-execute one recorded case against the implementation and print what it does now"""
     r = json.load(open(path))["replay"]
     print(json.dumps(r, indent=1)[:4000])
-    if r.get("kind") == "ops":
+    kind = r.get("kind")
+    if kind == "ops":
         obs = run_sequence(r["case"])
         print("now: init_err", obs["init_err"], "errors", obs["errs"], "disjoint", obs["disjoint_ok"])
         for s in obs["steps"]:
             print("  ", s)
+    elif kind == "val":
+        a, b = to_py(r["a"]), to_py(r["b"])
+        print("now: a == b:", a == b, "| canon a:", observe_canon(a), "| canon b:", observe_canon(b))
+    elif kind in ("feature", "filter", "link", "index"):
+        if kind == "feature":
+            a, b = build_feat(r["pair"][0]), build_feat(r["pair"][1])
+            print("now:", observe_eq_hash(a, b))
+        elif kind == "filter":
+            from mloda.core.filter.single_filter import SingleFilter
+            objs = []
+            for x in r["pair"]:
+                try:
+                    objs.append(SingleFilter(build_feat(x["feat"]), x["type"], to_py(["D", x["params"]])))
+                except (ValueError, TypeError) as e:
+                    objs.append(None)
+                    print("constructor:", type(e).__name__, e)
+            if all(o is not None for o in objs):
+                print("now:", observe_eq_hash(objs[0], objs[1]))
+        else:
+            print("link / index pairs are regenerated from the seed; descriptor printed above")
+    elif kind == "grouping":
+        from mloda.core.prepare.execution_plan import ExecutionPlan
+        feats = [build_gfeat(d) for d in r["feats"]]
+        fset = set(feats)
+        res = ExecutionPlan.group_features_by_compute_framework_and_options(None, fset)  # type: ignore[arg-type]
+        print("iteration order:", [f.name.name for f in fset])
+        print("now:", [sorted(f.name.name for f in g) for g in res.values()])
+    elif kind == "e2e":
+        exc, calls = run_request([build_gfeat(d) for d in r["feats"]])
+        print("now:", exc, [(c[0], sorted(n for n, _, _ in c[1])) for c in calls])
+    elif kind == "e2e_derived":
+        from mloda.user import Feature
+        exc, calls = run_request([Feature(f"d{i}", options=build_options(ini)) for i, ini in enumerate(r["inis"])])
+        print("now:", exc, [(c[0], [(n, g, cx) for n, g, cx in c[1]]) for c in calls])
+    elif kind == "kf_filter":
+        from mloda.core.filter.global_filter import GlobalFilter
+        try:
+            GlobalFilter().add_filter(r["feature"], r["type"], dict(r["parameter"]))
+            print("now: add_filter succeeded")
+        except TypeError as e:
+            print("now: TypeError", e)
+    elif kind == "kf_infeatures":
+        print("now:", infeatures_witness())
+    elif kind in ("kf_untyped", "kf_conflation"):
+        print("now:", grouping_witnesses())
     return 0
